@@ -5,11 +5,14 @@ package c02keylock
 
 import (
 	"fmt"
+	"math"
+	"reflect"
 	"runtime"
 	"sort"
 	"strings"
 	"sync"
 	"sync/atomic"
+	"unsafe"
 
 	"github.com/pinealctx/neptune/remap"
 	"github.com/pinealctx/neptune/syncx/keylock"
@@ -26,7 +29,10 @@ const Property = "C02"
 type locker interface {
 	lock(keys []int, write, multi bool)   // multi or len(keys)>1: Locks/RLocks; else the single-key entry point
 	unlock(keys []int, write, multi bool) // matching unlock
-	multi() bool                          // has Locks/RLocks
+	// unlockSplit releases through the OTHER entry points: a multi-key call key by key with the single-key unlock, a
+	// single-key call with a one-key multi unlock (no-op difference where the locker has no multi-key calls)
+	unlockSplit(keys []int, write, multi bool)
+	multi() bool // has Locks/RLocks
 	raw() interface{}
 }
 
@@ -55,8 +61,9 @@ func (a *anyLocker) unlock(keys []int, write, _ bool) {
 		a.l.RUnlock(a.key(keys[0]))
 	}
 }
-func (a *anyLocker) multi() bool      { return false }
-func (a *anyLocker) raw() interface{} { return a.l }
+func (a *anyLocker) unlockSplit(keys []int, write, multi bool) { a.unlock(keys, write, multi) }
+func (a *anyLocker) multi() bool                               { return false }
+func (a *anyLocker) raw() interface{}                          { return a.l }
 
 type tLocker[T comparable] struct {
 	l    keylock.TLocker[T]
@@ -95,6 +102,15 @@ func (a *tLocker[T]) unlock(keys []int, write, multi bool) {
 		a.l.RUnlocks(a.ks(keys))
 	}
 }
+func (a *tLocker[T]) unlockSplit(keys []int, write, multi bool) {
+	if len(keys) == 1 && !multi {
+		a.unlock(keys, write, true)
+		return
+	}
+	for _, k := range keys {
+		a.unlock([]int{k}, write, false)
+	}
+}
 func (a *tLocker[T]) multi() bool      { return true }
 func (a *tLocker[T]) raw() interface{} { return a.l }
 
@@ -108,6 +124,17 @@ type Config struct {
 	// TypeMix (interface{}-keyed lockers): keys 3j, 3j+1, 3j+2 are the same number as int, int64 and uint32 - three
 	// different keys of an interface{}-keyed locker
 	TypeMix bool `json:"type_mix,omitempty"`
+	// Perm (optional, a permutation of 0..NKeys-1): key i has the value Base + Perm[i]*Stride. The one global order
+	// of a case is the order of the key indexes - with a permutation it is NOT ascending by value.
+	Perm []int `json:"perm,omitempty"`
+}
+
+// rank is the multiplier of key i.
+func (c Config) rank(i int) int {
+	if len(c.Perm) == c.NKeys && i >= 0 && i < len(c.Perm) {
+		return c.Perm[i]
+	}
+	return i
 }
 
 func (c Config) valid() bool {
@@ -116,20 +143,37 @@ func (c Config) valid() bool {
 	default:
 		return false
 	}
-	return c.Shards >= 1 && c.Shards <= 100000 && c.NKeys >= 1 && c.NKeys <= 64 && c.Stride >= 1 && c.Stride <= 1000 && c.Base >= 0 && c.Base <= 1<<20
+	return c.Shards >= 1 && c.Shards <= 100000 && c.NKeys >= 1 && c.NKeys <= 64 && c.Stride >= 1 && c.Stride <= 1000 && c.Base >= -(1<<62) && c.Base <= 1<<62 && c.permOK()
+}
+
+func (c Config) permOK() bool {
+	if len(c.Perm) == 0 {
+		return true
+	}
+	if len(c.Perm) != c.NKeys {
+		return false
+	}
+	seen := make([]bool, c.NKeys)
+	for _, p := range c.Perm {
+		if p < 0 || p >= c.NKeys || seen[p] {
+			return false
+		}
+		seen[p] = true
+	}
+	return true
 }
 
 func (c Config) build() locker {
 	opt := remap.WithPrime(c.Shards)
-	iconv := func(k int) int { return c.Base + k*c.Stride }
-	sconv := func(k int) string { return fmt.Sprintf("k%d", c.Base+k*c.Stride) }
+	iconv := func(k int) int { return c.Base + c.rank(k)*c.Stride }
+	sconv := func(k int) string { return fmt.Sprintf("k%d", c.Base+c.rank(k)*c.Stride) }
 	switch c.Type {
 	case "KeyLocker":
-		return &strideAny{anyLocker{l: keylock.NewKeyLocker(), str: c.StrKey}, c.Stride, c.Base, c.TypeMix}
+		return &strideAny{anyLocker{l: keylock.NewKeyLocker(), str: c.StrKey}, c.Stride, c.Base, c.TypeMix, c.rank}
 	case "KeyLockerGrp":
-		return &strideAny{anyLocker{l: keylock.NewKeyLockeGrp(opt), str: c.StrKey}, c.Stride, c.Base, c.TypeMix}
+		return &strideAny{anyLocker{l: keylock.NewKeyLockeGrp(opt), str: c.StrKey}, c.Stride, c.Base, c.TypeMix, c.rank}
 	case "KeyLockerGrpX":
-		return &strideAny{anyLocker{l: keylock.NewXHashKeyLockeGrp(opt), str: c.StrKey}, c.Stride, c.Base, c.TypeMix}
+		return &strideAny{anyLocker{l: keylock.NewXHashKeyLockeGrp(opt), str: c.StrKey}, c.Stride, c.Base, c.TypeMix, c.rank}
 	case "TKeyLocker":
 		if c.StrKey {
 			return &tLocker[string]{l: keylock.NewTKeyLocker[string](), conv: sconv}
@@ -152,18 +196,31 @@ type strideAny struct {
 	anyLocker
 	stride, base int
 	typeMix      bool
+	rank         func(int) int
 }
+
+// mixKinds: the dynamic types one number is handed in as under TypeMix (seven different keys of an interface{}-keyed
+// locker; the numbers stay within 0..127 so that every type holds them)
+const mixKinds = 7
 
 func (s *strideAny) keyOf(k int) interface{} {
 	if !s.typeMix || s.str {
-		return s.anyLocker.key(s.base + k*s.stride)
+		return s.anyLocker.key(s.base + s.rank(k)*s.stride)
 	}
-	v := s.base + (k/3)*s.stride
-	switch k % 3 {
+	v := k/mixKinds + ((s.base%64)+64)%64 // distinct per group of seven, always within 0..127
+	switch k % mixKinds {
 	case 1:
 		return int64(v)
 	case 2:
 		return uint32(v)
+	case 3:
+		return int32(v)
+	case 4:
+		return int8(v)
+	case 5:
+		return uint64(v)
+	case 6:
+		return fmt.Sprint(v)
 	}
 	return v
 }
@@ -176,6 +233,7 @@ func (s *strideAny) lock(keys []int, write, multi bool) {
 		s.l.RLock(k)
 	}
 }
+func (s *strideAny) unlockSplit(keys []int, write, multi bool) { s.unlock(keys, write, multi) }
 func (s *strideAny) unlock(keys []int, write, multi bool) {
 	k := s.keyOf(keys[0])
 	if write {
@@ -189,19 +247,34 @@ func genConfig(t *rapid.T) Config {
 	c := Config{
 		Type:   rapid.SampledFrom([]string{"KeyLocker", "KeyLockerGrp", "KeyLockerGrpX", "TKeyLocker", "TKeyLocker", "TKeyLockerGrp", "TKeyLockerGrp", "TKeyLockerGrpX"}).Draw(t, "type"),
 		StrKey: rapid.IntRange(0, 3).Draw(t, "strkey") == 0,
-		Shards: rapid.SampledFrom([]uint64{1, 2, 3, 73, 7, 33, 37, 61, 64}).Draw(t, "shards"),
+		Shards: rapid.SampledFrom([]uint64{1, 2, 3, 73, 7, 33, 37, 61, 64, 257, 1000}).Draw(t, "shards"),
 		NKeys:  rapid.IntRange(2, 6).Draw(t, "nkeys"),
 	}
 	// sometimes many keys, so that multi-key lists get long (> 12 keys) and several of them share a shard
 	if rapid.IntRange(0, 5).Draw(t, "manykeys") == 0 {
 		c.NKeys = rapid.IntRange(14, 24).Draw(t, "nkeysmany")
+		if rapid.IntRange(0, 3).Draw(t, "verymany") == 0 {
+			c.NKeys = rapid.IntRange(34, 48).Draw(t, "nkeysverymany") // lists beyond 32 keys
+		}
 	}
 	// stride 1: neighbours spread over the shards; stride == shards: all keys in one shard
 	c.Stride = rapid.SampledFrom([]int{1, 1, int(c.Shards), 5}).Draw(t, "stride")
 	// keys need not start at 0: with a base near the shard count the keys reach the highest shard indexes
-	c.Base = rapid.SampledFrom([]int{0, 0, 30, 57, 1000}).Draw(t, "base")
+	c.Base = rapid.SampledFrom([]int{0, 0, 30, 57, 1000, 250, -5, -1000, -(1 << 40), 1 << 40, math.MinInt64 / 4}).Draw(t, "base")
 	c.TypeMix = !isMultiType(c.Type) && !c.StrKey && rapid.IntRange(0, 2).Draw(t, "typemix") == 0
+	// the one global order of the case need not be ascending by value
+	if rapid.IntRange(0, 3).Draw(t, "permuted") == 0 {
+		c.Perm = rapid.Permutation(seqInts(c.NKeys)).Draw(t, "perm")
+	}
 	return c
+}
+
+func seqInts(n int) []int {
+	s := make([]int, n)
+	for i := range s {
+		s[i] = i
+	}
+	return s
 }
 
 func isMultiType(typ string) bool { return typ[0] == 'T' }
@@ -256,6 +329,8 @@ type Step struct {
 	// Nest: the call is issued by the goroutine of actor Parent, which still holds its own (smaller) keys
 	Nest   bool `json:"nest,omitempty"`
 	Parent int  `json:"parent,omitempty"`
+	// Split (unlock): release through the other entry points (see locker.unlockSplit)
+	Split bool `json:"split,omitempty"`
 }
 
 type CaseCtl struct {
@@ -301,7 +376,13 @@ func GenCtl(t *rapid.T) CaseCtl {
 		if len(live) > 0 && rapid.IntRange(0, 9).Draw(t, "unlock") < 4 {
 			a := rapid.SampledFrom(live).Draw(t, "who")
 			actors[a].unlocked = true
-			c.Steps = append(c.Steps, Step{Op: "unlock", Actor: a})
+			c.Steps = append(c.Steps, Step{Op: "unlock", Actor: a, Split: isMultiType(c.Type) && rapid.IntRange(0, 3).Draw(t, "split") == 0})
+			continue
+		}
+		if isMultiType(c.Type) && rapid.IntRange(0, 24).Draw(t, "emptylist") == 0 {
+			// the empty list is a duplicate-free ordered list too: the call returns at once and holds nothing
+			actors = append(actors, &genActor{write: rapid.Bool().Draw(t, "emptywrite")})
+			c.Steps = append(c.Steps, Step{Op: "lock", Actor: len(actors) - 1, Write: actors[len(actors)-1].write, Multi: true})
 			continue
 		}
 		a := &genActor{keys: genKeyList(t, c.NKeys, isMultiType(c.Type)), write: rapid.IntRange(0, 9).Draw(t, "write") < 5}
@@ -309,7 +390,10 @@ func GenCtl(t *rapid.T) CaseCtl {
 		if len(live) > 0 && rapid.IntRange(0, 4).Draw(t, "nest") == 0 {
 			// a nested request: keys strictly above everything its parent asked for
 			par := rapid.SampledFrom(live).Draw(t, "parent")
-			top := actors[par].keys[len(actors[par].keys)-1]
+			top := -1
+			if n := len(actors[par].keys); n > 0 {
+				top = actors[par].keys[n-1]
+			}
 			var ks []int
 			for _, k := range a.keys {
 				if k > top {
@@ -340,6 +424,7 @@ type actorRun struct {
 	multi    bool
 	op       *vkit.Op
 	unlockOp *vkit.Op
+	split    bool // release through the other entry points
 	wantFree bool // an unlock step was issued while the actor was still parked: unlock as soon as it returns
 	parent   int  // -1, or the actor whose goroutine issued this (nested) call
 }
@@ -381,6 +466,11 @@ func ExecCtl(c CaseCtl) *vkit.Result {
 	releasable := func(ai int) bool { return holding(runs[ai]) && !hasPendingChild(ai) }
 	doUnlock := func(ai int) {
 		r := runs[ai]
+		if r.split {
+			res.Class("release-through-the-other-entry-points")
+			r.unlockOp = sched.Go(fmt.Sprintf("unlock-split-%d", ai), func() { lk.unlockSplit(r.keys, r.write, r.multi) })
+			return
+		}
 		r.unlockOp = sched.Go(fmt.Sprintf("unlock-%d", ai), func() { lk.unlock(r.keys, r.write, r.multi) })
 	}
 
@@ -515,12 +605,16 @@ func ExecCtl(c CaseCtl) *vkit.Result {
 		switch st.Op {
 		case "lock":
 			keys := st.Keys
-			if !validKeys(keys, c.NKeys) || (len(keys) > 1 && !lk.multi()) {
+			emptyList := len(keys) == 0 && st.Multi && lk.multi()
+			if !emptyList && (!validKeys(keys, c.NKeys) || (len(keys) > 1 && !lk.multi())) {
 				res.Skip("bad-lock-step")
 				continue
 			}
 			r := &actorRun{keys: append([]int(nil), keys...), write: st.Write, multi: st.Multi && lk.multi(), parent: -1}
-			if st.Nest && st.Parent >= 0 && st.Parent < len(runs) && releasable(st.Parent) && runs[st.Parent].unlockOp == nil && !runs[st.Parent].wantFree &&
+			if emptyList {
+				res.Class("empty-key-list")
+			}
+			if !emptyList && st.Nest && len(runs) > st.Parent && st.Parent >= 0 && len(runs[st.Parent].keys) > 0 && st.Parent >= 0 && st.Parent < len(runs) && releasable(st.Parent) && runs[st.Parent].unlockOp == nil && !runs[st.Parent].wantFree &&
 				keys[0] > runs[st.Parent].keys[len(runs[st.Parent].keys)-1] && c.Config.nestOK() {
 				// every key above everything the parent chain holds: the one global order
 				ok := true
@@ -562,8 +656,10 @@ func ExecCtl(c CaseCtl) *vkit.Result {
 				res.Skip("double-unlock")
 				continue
 			case releasable(st.Actor):
+				r.split = st.Split && len(r.keys) > 0
 				doUnlock(st.Actor)
 			default:
+				r.split = st.Split && len(r.keys) > 0
 				r.wantFree = true // unlocks as soon as it gets the lock
 				res.Class("unlock-deferred")
 			}
@@ -600,8 +696,82 @@ func ExecCtl(c CaseCtl) *vkit.Result {
 	}
 	if n := keylock.VerifEntries(lk.raw()); n != 0 {
 		res.Failf("residue", "every lock has been released but the locker retains %d entries", n)
+		return res
+	}
+	// per-key state anywhere else in the locker (side maps, caches): as many container elements as a fresh locker has
+	if got, fresh := deepElems(lk.raw()), deepElems(c.build().raw()); got != fresh {
+		res.Failf("residue", "every lock has been released and the lock table is empty, but the locker's maps/slices/sync.Maps hold %d elements, a fresh locker of the same configuration %d", got, fresh)
 	}
 	return res
+}
+
+// deepElems counts the elements of every map, slice and sync.Map reachable from v (through pointers, interfaces and
+// struct fields, exported or not): a measure of retained state that does not depend on which field holds it.
+func deepElems(root interface{}) int {
+	seen := map[uintptr]bool{}
+	var walk func(v reflect.Value, depth int) int
+	walk = func(v reflect.Value, depth int) int {
+		if depth > 12 || !v.IsValid() {
+			return 0
+		}
+		switch v.Kind() {
+		case reflect.Ptr:
+			if v.IsNil() || seen[v.Pointer()] {
+				return 0
+			}
+			seen[v.Pointer()] = true
+			if v.Type().Elem().PkgPath() == "sync" && v.Type().Elem().Name() == "Map" {
+				n := 0
+				if v.CanInterface() {
+					v.Interface().(*sync.Map).Range(func(_, _ any) bool { n++; return true })
+				}
+				return n
+			}
+			return walk(v.Elem(), depth+1)
+		case reflect.Interface:
+			if v.IsNil() {
+				return 0
+			}
+			return walk(v.Elem(), depth+1)
+		case reflect.Struct:
+			if v.Type().PkgPath() == "sync" {
+				if v.Type().Name() == "Map" && v.CanAddr() {
+					return walk(reflect.NewAt(v.Type(), unsafe.Pointer(v.UnsafeAddr())), depth+1)
+				}
+				return 0 // mutexes etc.
+			}
+			n := 0
+			for i := 0; i < v.NumField(); i++ {
+				f := v.Field(i)
+				if f.CanAddr() {
+					f = reflect.NewAt(f.Type(), unsafe.Pointer(f.UnsafeAddr())).Elem()
+				}
+				n += walk(f, depth+1)
+			}
+			return n
+		case reflect.Map:
+			n := v.Len()
+			it := v.MapRange()
+			for it.Next() {
+				n += walk(it.Value(), depth+1)
+			}
+			return n
+		case reflect.Slice:
+			n := v.Len()
+			for i := 0; i < v.Len(); i++ {
+				n += walk(v.Index(i), depth+1)
+			}
+			return n
+		case reflect.Array:
+			n := 0
+			for i := 0; i < v.Len(); i++ {
+				n += walk(v.Index(i), depth+1)
+			}
+			return n
+		}
+		return 0
+	}
+	return walk(reflect.ValueOf(root), 0)
 }
 
 func rw(w bool) string {
